@@ -240,5 +240,6 @@ Definition entry (x : sx) : sx :=
   | Some (c, io) =>
       let m := run_model c in
       L [ enc_obs m; L (map sxS (holds c m)); L (map sxS (holds c io));
-          sxBool (validb c); enc_denot (denote c (s1 c)); enc_denot (denote c (s2 c)) ]
+          L []; sxBool (validb c);   (* 5th item: the hypotheses of C16_holds hold (C16_covered_cases applies) *)
+          enc_denot (denote c (s1 c)); enc_denot (denote c (s2 c)) ]
   end.
